@@ -457,7 +457,38 @@ def _configs(ctx):
     return cfgs
 
 
-def _corpus(ctx):
+import threading
+
+_LOCK = threading.RLock()
+
+
+def _tv(ctx, n):
+    with _LOCK:
+        ctx.traces_validated += n
+
+
+class _Shared:
+    """view of the run context for one configuration's thread: own PRNG (drawn from the run's PRNG before the threads
+    start, so the run stays a function of VERIF_SEED), counters and findings of the shared context under a lock"""
+
+    def __init__(self, ctx, rng):
+        self.__dict__.update(_ctx=ctx, rng=rng)
+
+    def __getattr__(self, name):
+        v = getattr(self._ctx, name)
+        if callable(v) and name in ("case", "stat", "compare", "disagree", "counterexample", "broke"):
+            def locked(*a, **kw):
+                with _LOCK:
+                    return v(*a, **kw)
+            return locked
+        return v
+
+    def __setattr__(self, name, value):
+        with _LOCK:
+            setattr(self._ctx, name, value)
+
+
+def _corpus_cases():
     from core.ctx import VERIF
     d = os.path.join(VERIF, "corpus", ID)
     cases = []
@@ -465,26 +496,76 @@ def _corpus(ctx):
         if fn.endswith(".json"):
             rec = json.load(open(os.path.join(d, fn)))
             cases += rec.get("cases", [rec] if "kills" in rec else [])
-    for c in cases:   # reference sessions first (one per distinct configuration), then the replays in parallel
-        key = json.dumps(c["cfg"], sort_keys=True)
-        if key not in _SESS:
+    return cases
+
+
+def _corpus(ctx):
+    """corpus first: minimised past failures, replayed with simulated kills in one session process per distinct
+    configuration; a case that fails there is confirmed with real process kills (oracle) before it is reported"""
+    groups = {}
+    for c in _corpus_cases():
+        groups.setdefault(json.dumps(c["cfg"], sort_keys=True), []).append(c)
+    for key, cs in groups.items():
+        try:
+            o = _run_session("corpus" + hashlib.sha1(key.encode()).hexdigest()[:8], cs[0]["cfg"],
+                             [dict(sid=i, kills=c["kills"]) for i, c in enumerate(cs)])
+        except Infra as e:
+            ctx.notes.append(f"corpus replay skipped: {e}")
+            continue
+        _SESS.setdefault(key, o)
+        if o["ref"]["status"] != "done":
+            continue
+        for i, c in enumerate(cs):
+            ctx.case(dict(corpus=True, **c))
+            ctx.stat("corpus")
+            sc = o["scen"].get(str(i))
+            if sc is None:
+                continue
             try:
-                _SESS[key] = _run_session("c" + hashlib.sha1(key.encode()).hexdigest()[:8], c["cfg"], [])
+                j = _judge(c["cfg"], sc, o["ref"]["res"])
             except Infra:
-                pass
-    for case, r in _pool().map(lambda c: (c, oracle(c)), cases):
-        ctx.case(dict(corpus=True, **case))
-        ctx.stat("corpus")
-        if r:
-            ctx.counterexample(case, *r)
+                continue
+            if j:
+                r = oracle(c)
+                if r:
+                    ctx.counterexample(c, *r)
 
 
 def run(ctx):
-    _corpus(ctx)
-    for cfg in _configs(ctx):
-        _run_cfg(ctx, cfg)
-    if not ctx.quick:
-        _run_opaque(ctx)
+    import random
+    import time
+    jobs = [("corpus", None)] + [("cfg", c) for c in _configs(ctx)] + ([("opaque", None)] if not ctx.quick else [])
+    rngs = [random.Random(ctx.rng.randrange(10 ** 9)) for _ in jobs]
+    errs = []
+
+    def work(job, rng):
+        kind, cfg = job
+        sh = _Shared(ctx, rng)
+        t0 = time.time()
+        try:
+            if kind == "corpus":
+                _corpus(sh)
+            elif kind == "cfg":
+                _run_cfg(sh, cfg)
+            else:
+                _run_opaque(sh)
+        except BaseException as e:  # noqa: BLE001 - re-raised in the main thread
+            errs.append(e)
+        with _LOCK:
+            ctx.extra.setdefault("phase_s", {})[kind + ("" if cfg is None else ":" + cfg["strategy"] + str(cfg["seed"]))] = \
+                round(time.time() - t0, 1)
+    # the configurations are independent: one thread each (they spend their time waiting for worker processes)
+    width = 3 if ctx.quick else 2
+    pending = list(zip(jobs, rngs))
+    while pending:
+        batch, pending = pending[:width], pending[width:]
+        ts = [threading.Thread(target=work, args=a) for a in batch]
+        for t in ts:
+            t.start()
+        for t in ts:
+            t.join()
+    if errs:
+        raise errs[0]
 
 
 def _session_chunks(ctx, cfg, scenarios, nsess, extra=None):
@@ -518,7 +599,7 @@ def _run_cfg(ctx, cfg):
         return
     real_coarse = F.coarse(ref["ops"], drop_noop_mkdir=False)
     proto = next((p for p in protos if mo[p]["coarse"] == real_coarse), None)
-    ctx.traces_validated += 1
+    _tv(ctx, 1)
     ctx.compare(case0, dict(coarse=real_coarse), dict(coarse=mo["repaired"]["coarse"]),
                 note=f"[{strat}] op sequence of the real uninterrupted run vs model (repaired protocol)"
                      + (" — the real sequence equals the model of the AS-FOUND protocol" if proto == "asFound" else ""))
@@ -532,7 +613,7 @@ def _run_cfg(ctx, cfg):
         _report_failures(ctx, cfg, {k: v for o in outs for k, v in o["scen"].items()}, ref, set())
         return
     nfine = mo[proto]["fine"]
-    rng = __import__("random").Random(ctx.rng.randrange(10 ** 9))
+    rng = ctx.rng
     singles = list(range(nfine + 1))
     if ctx.quick:   # stratified: every point of the middle iteration, every 6th elsewhere, first/last
         per = (nfine - 5) // n
@@ -550,7 +631,7 @@ def _run_cfg(ctx, cfg):
              dict(at=p["coarse"], when="before") if p["off"] == 0 else
              dict(at=p["coarse"], when="partial", frac=[p["off"], p["len"]])) for p in poss[1:]]
         scenarios.append(dict(sid=sid, kills=kills))
-    outs = _session_chunks(ctx, cfg, scenarios, ctx.n(4, 6))
+    outs = _session_chunks(ctx, cfg, scenarios, ctx.n(3, 6))
     if any(o["ref"]["res"] != ref["res"] for o in outs):
         ctx.disagree(case0, [o["ref"]["res"] for o in outs], ref["res"], "the uninterrupted run is not deterministic")
         return
@@ -594,7 +675,7 @@ def _run_cfg(ctx, cfg):
                 impl.pop("final"), modl.pop("final")
         ctx.compare(case, impl, modl, note=f"[{strat}] directory after each kill / outcome / resumed run: real vs model",
                     nontrivial=0 < ks[0] < nfine)
-        ctx.traces_validated += len(sc["stages"]) + 1
+        _tv(ctx, len(sc["stages"]) + 1)
         reads_ok = {"last_finished_iteration", "pickle/nifty_random_state"}
         bad = [r for r in fin.get("reads", []) if r not in reads_ok and not r.startswith(("pickle/iteration_", "pickle/latest.",
                "pickle/energy_history_", "pickle/minisanity_history_"))]
@@ -624,7 +705,7 @@ def _real_crosscheck(ctx, cfg, allsc, ref):
     cand = [sid for sid in allsc if sid not in failing]
     ctx.rng.shuffle(cand)
     mid = [sid for sid in cand if any(k.get("when") == "partial" for k in allsc[sid]["kills"])]
-    pick = failing + mid[:ctx.n(1, 6)] + [sid for sid in cand if sid not in mid][:ctx.n(1, 8)]
+    pick = failing + mid[:ctx.n(1, 4)] + [sid for sid in cand if sid not in mid][:ctx.n(0, 4)]
     try:
         reals = _pool().map(lambda sid: (sid, _scenario_real(f"{cfg['strategy']}{cfg['seed']}_{sid}", cfg, allsc[sid]["kills"])), pick)
     except Infra as e:
@@ -644,7 +725,7 @@ def _real_crosscheck(ctx, cfg, allsc, ref):
         if ctx.compare(dict(cfg=cfg, kills=sc["kills"], check="simulated-vs-real-kill"), view(rs), view(sc),
                        note="directory snapshots / outcome: real kill (os._exit) vs simulated kill"):
             confirmed.add(sid)
-            ctx.traces_validated += 1
+            _tv(ctx, 1)
     return confirmed
 
 
